@@ -150,23 +150,32 @@ fn run_plane(op: u8, a: u8, only: Option<u32>, ctx: &mut Ctx) -> Result<(), Viol
         if only.map(|o| o != b as u32).unwrap_or(false) {
             continue;
         }
-        let mut setup = Setup::plain(vec![op, 0x02, 0x01], 0, Some(0xFF));
-        let d = (op & 3) as usize;
-        let s = ((op >> 2) & 3) as usize;
-        let mut regs = [0u8; 8];
-        regs[s] = b;
-        regs[d] = a;
-        regs[5] = 0xEF;
-        setup.regs = Some(regs);
-        let mut r = setup.build();
-        // forks at the boundary, in the first micro-steps and deep inside the loop
-        for t in 0..40u32 {
-            ctx.cov.evaluations += 1;
-            fork_oracle(&r, 1, b as u32, ctx)?;
-            r.trigger_key_clock();
-            if t > 6 {
-                for _ in 0..13 {
-                    r.trigger_key_clock();
+        // without and with a key interrupt pending (the entry sequence then rides on the same step)
+        for irq in [false, true] {
+            let mut setup = Setup::plain(vec![op, 0x02, 0x01], 0, Some(0xFF));
+            let d = (op & 3) as usize;
+            let s = ((op >> 2) & 3) as usize;
+            let mut regs = [0u8; 8];
+            regs[s] = b;
+            regs[d] = a;
+            regs[4] = if irq { 0x08 } else { 0 };
+            regs[5] = 0xEF;
+            setup.regs = Some(regs);
+            let mut r = setup.build();
+            if irq {
+                let _ = r.raw_mut().bus_mut().write(0xF9, 1);
+                let _ = r.trigger_key_interrupt();
+                ctx.cov.probe("plane-with-interrupt-pending");
+            }
+            // forks at the boundary, in the first micro-steps and deep inside the loop
+            for t in 0..40u32 {
+                ctx.cov.evaluations += 1;
+                fork_oracle(&r, if irq { 2 } else { 1 }, b as u32, ctx)?;
+                r.trigger_key_clock();
+                if t > 6 {
+                    for _ in 0..13 {
+                        r.trigger_key_clock();
+                    }
                 }
             }
         }
